@@ -46,14 +46,20 @@ Proof. reflexivity. Qed.
    transient errors invisible; the channel is closed exactly when the producer has returned;
    the consumer sees the close only after everything buffered; and then (no cancel) it has
    received exactly all the packets. *)
+(* The event list may assign DecodeOptions.NoCopy at any point (EvSetOpt); the only assignments
+   excluded are those switching NoCopy ON for a buffer-reusing source after the start (ev_safe) —
+   the guard cannot see them unless PacketsCtx is called again (C16_guard_every_call), and what
+   is still guaranteed then is C16_immutable_flips. *)
 Theorem C16_chan : forall dec c s0 s1 evs,
   PreStart s0 ->
   (s_kind (t_src s0) = SZero -> p_zero (t_cfg s0) = true) ->
   packets_ctx s0 = Ok s1 ->
+  Forall (ev_safe (s_kind (t_src s0))) evs ->
   chan_ok dec (before_stop dec (flat (t_src s0))) (run dec c s1 evs).
 Proof.
-  intros dec c s0 s1 evs HP HZ HS.
-  apply inv_chan_ok, inv_run. apply inv_start; [exact HP| |exact HS].
+  intros dec c s0 s1 evs HP HZ HS HF.
+  apply inv_chan_ok, inv_run; [rewrite (start_src s0 s1 HS); exact HF|].
+  apply inv_start; [exact HP| |exact HS].
   eapply guard_safe; eauto.
 Qed.
 Print Assumptions C16_chan.
@@ -68,14 +74,16 @@ Theorem C16_chan_progress : forall dec c s0 s1 evs, 1 <= c ->
   PreStart s0 ->
   (s_kind (t_src s0) = SZero -> p_zero (t_cfg s0) = true) ->
   packets_ctx s0 = Ok s1 ->
+  Forall (ev_safe (s_kind (t_src s0))) evs ->
   let s := run dec c s1 evs in
   (t_seen_closed s = false -> exists e, measure (step dec c s e) < measure s) /\
-  (forall evs', effective dec c s evs' -> length evs' <= measure s) /\
+  (forall evs', effective dec c s evs' -> work evs' <= measure s) /\
   (exists evs', t_seen_closed (run dec c s evs') = true /\ length evs' <= measure s).
 Proof.
-  intros dec c s0 s1 evs Hc HP HZ HS s.
+  intros dec c s0 s1 evs Hc HP HZ HS HF s.
   assert (HI : Inv dec (before_stop dec (flat (t_src s0))) s).
-  { apply inv_run. apply inv_start; [exact HP| |exact HS]. eapply guard_safe; eauto. }
+  { apply inv_run; [rewrite (start_src s0 s1 HS); exact HF|].
+    apply inv_start; [exact HP| |exact HS]. eapply guard_safe; eauto. }
   split; [|split].
   - intros Hs. eapply no_deadlock; eauto.
   - intros evs' E. pose proof (effective_bound dec c evs' s E). lia.
@@ -129,15 +137,17 @@ Print Assumptions C16_immutable.
    pairwise distinct *)
 Theorem C16_immutable_chan : forall dec c s0 s1 evs p,
   PreStart s0 -> p_nocopy (t_cfg s0) = false -> packets_ctx s0 = Ok s1 ->
+  Forall (ev_safe (s_kind (t_src s0))) evs ->
   let s := run dec c s1 evs in
   In p (live s) ->
   fresh_ok (t_mem s) (k_data p) /\
   (forall acts, vread (t_mem (arun dec c s acts)) (k_data p) = vread (t_mem s) (k_data p)) /\
   NoDup (map arr_of (live s)).
 Proof.
-  intros dec c s0 s1 evs p HP N HS s Hin.
+  intros dec c s0 s1 evs p HP N HS HF s Hin.
   assert (HI : Inv dec (before_stop dec (flat (t_src s0))) s).
-  { apply inv_run. apply inv_start; [exact HP|apply copy_safe; exact N|exact HS]. }
+  { apply inv_run; [rewrite (start_src s0 s1 HS); exact HF|].
+    apply inv_start; [exact HP|apply copy_safe; exact N|exact HS]. }
   destruct (immut_chan dec _ c s p HI Hin) as (F & X).
   split; [exact F|]. split; [exact X|]. destruct HI; assumption.
 Qed.
@@ -146,13 +156,15 @@ Print Assumptions C16_immutable_chan.
 (* and for every configuration the guard lets through (NoCopy on a source handing out fresh arrays) *)
 Theorem C16_immutable_guarded : forall dec c s0 s1 evs p,
   PreStart s0 -> (s_kind (t_src s0) = SZero -> p_zero (t_cfg s0) = true) -> packets_ctx s0 = Ok s1 ->
+  Forall (ev_safe (s_kind (t_src s0))) evs ->
   let s := run dec c s1 evs in
   In p (live s) ->
   forall acts, vread (t_mem (arun dec c s acts)) (k_data p) = vread (t_mem s) (k_data p).
 Proof.
-  intros dec c s0 s1 evs p HP HZ HS s Hin.
+  intros dec c s0 s1 evs p HP HZ HS HF s Hin.
   assert (HI : Inv dec (before_stop dec (flat (t_src s0))) s).
-  { apply inv_run. apply inv_start; [exact HP|eapply guard_safe; eauto|exact HS]. }
+  { apply inv_run; [rewrite (start_src s0 s1 HS); exact HF|].
+    apply inv_start; [exact HP|eapply guard_safe; eauto|exact HS]. }
   apply (immut_chan dec _ c s p HI Hin).
 Qed.
 
@@ -163,6 +175,61 @@ Theorem C16_guard : forall s,
   t_cfg s = new_zero_copy_packet_source true -> packets_ctx s = Panic 1%Z.
 Proof. intros s E. apply guard_refuses; rewrite E; reflexivity. Qed.
 Print Assumptions C16_guard.
+
+(* The guard as an invariant.  Options are mutable state (EvSetOpt inside `AEv`); PacketsCtx may
+   be called any number of times (AStart).  In EVERY state reached from a source built by
+   NewZeroCopyPacketSource by any sequence of NextPacket calls, PacketsCtx calls, option
+   assignments and transition-system events — before the first call, after the channel and
+   goroutine exist, after the close — if NoCopy is on NOW then a PacketsCtx call refuses. *)
+Theorem C16_guard_every_call : forall dec c nocopy src buf acts,
+  let s := arun dec c (init (make_cfg SZero nocopy) src buf) acts in
+  p_nocopy (t_cfg s) = true -> packets_ctx s = Panic 1%Z.
+Proof.
+  intros dec c nocopy src buf acts s N. apply guard_refuses; [|exact N].
+  unfold s. rewrite zero_flag_run. reflexivity.
+Qed.
+Print Assumptions C16_guard_every_call.
+
+(* in particular: first call with copying decode accepted, events, NoCopy switched on, more
+   events (possibly switching it off again): a further call refuses unless NoCopy is off again *)
+Theorem C16_guard_second_call : forall dec c src buf s1 evs evs',
+  packets_ctx (init (make_cfg SZero false) src buf) = Ok s1 ->
+  let s := run dec c (step_setopt true (run dec c s1 evs)) evs' in
+  packets_ctx s = Panic 1%Z \/ p_nocopy (t_cfg s) = false.
+Proof.
+  intros dec c src buf s1 evs evs' HS s.
+  destruct (p_nocopy (t_cfg s)) eqn:N; [left|right; reflexivity].
+  apply guard_refuses; [|exact N].
+  pose proof (zero_flag_run dec c (map AEv evs') (step_setopt true (run dec c s1 evs))) as Z1.
+  pose proof (zero_flag_run dec c (map AEv evs) s1) as Z2.
+  rewrite arun_events in Z1, Z2. unfold s. rewrite Z1. cbn [step_setopt t_cfg p_zero]. rewrite Z2.
+  unfold packets_ctx in HS. cbn in HS. inversion HS; subst. reflexivity.
+Qed.
+Print Assumptions C16_guard_second_call.
+
+(* What immutability guarantees when options change mid-stream, with NO assumption on the
+   assignments: (a) every packet received, buffered or in the producer's hand whose bytes are
+   not on the source's buffer (array 0) is never altered by anything done later; (b) a read
+   performed while NoCopy is false yields a packet on a fresh array (not array 0).  Hence
+   packets decoded while NoCopy was false stay immutable even if NoCopy is switched on later;
+   packets decoded from a buffer-reusing source while NoCopy was on are views of array 0 and
+   are overwritten by the next read (C16_flip_refuted below). *)
+Theorem C16_immutable_flips : forall dec c s0 s1 evs,
+  PreStart s0 -> packets_ctx s0 = Ok s1 ->
+  let s := run dec c s1 evs in
+  (forall p, In p (live s) -> v_arr (k_data p) <> 0 ->
+     forall acts, vread (t_mem (arun dec c s acts)) (k_data p) = vread (t_mem s) (k_data p)) /\
+  (forall b p, t_pc s = PRead -> p_nocopy (t_cfg s) = false ->
+     t_pc (step_prod dec c b s) = PSel p ->
+     fresh_ok (t_mem (step_prod dec c b s)) (k_data p) /\ length (t_mem s) <= v_arr (k_data p)).
+Proof.
+  intros dec c s0 s1 evs HP HS s.
+  assert (HW : WInv s) by (apply winv_run; eapply winv_start; eauto).
+  split.
+  - intros p Hin Nz. apply winv_immut; assumption.
+  - intros b p Hpc Nc E. eapply read_copy_fresh; eauto.
+Qed.
+Print Assumptions C16_immutable_flips.
 
 Theorem C16_guard_init : forall src buf, packets_ctx (init (make_cfg SZero true) src buf) = Panic 1%Z.
 Proof. intros. apply C16_guard. reflexivity. Qed.
@@ -244,3 +311,15 @@ Example C16_guard_nonvacuous :
   exists l, run_script_orig dec0 2 SZero true (s_h wit_src) [SStart; SGrantAll; SFin] =
     [OStart true; OSync 3 2; OFin l true 3 0 [[17;34;51]%Z; [17;34;51]%Z]].
 Proof. split; [vm_compute; reflexivity|]. eexists. vm_compute. reflexivity. Qed.
+
+(* option flips: first call accepted with copying decode, NoCopy switched on after the start,
+   the second PacketsCtx call refuses; the packet decoded before the flip keeps its bytes, the
+   two decoded after it alias the buffer (the documented hazard the guard exists for) *)
+Example C16_flip_nonvacuous :
+  run_script dec0 2 SZero false
+    [[IPkt [1;1]%Z ci1; IPkt [2;2]%Z ci1; IPkt [3;3]%Z ci1]]
+    [SStart; SGrant 1; SSetOpt true; SRestart; SGrantAll; SFin] =
+  [OStart true; OSync 1 1; OSetOpt; ORestart false; OSync 3 2;
+   OFin [mkpobs [1;1]%Z ci1 false; mkpobs [3;3]%Z ci1 false; mkpobs [3;3]%Z ci1 false] true 4 0
+        [[1;1]%Z; [3;3]%Z; [3;3]%Z]].
+Proof. vm_compute. reflexivity. Qed.
